@@ -5,8 +5,10 @@ import (
 	"flag"
 	"fmt"
 	"os"
+	"runtime"
 	"strconv"
 	"strings"
+	"time"
 )
 
 type runCfg struct {
@@ -54,9 +56,24 @@ func main() {
 	}
 	o := NewOut(c.out, c.name)
 	ex := f.NewExec(c, o)
+	// every operation runs under a watchdog: an operation that does not return (deadlock, endless wait)
+	// is the observation "HANG…", after which the run stops (the stuck goroutine may hold locks)
 	emit := func(fields ...string) {
-		obs := ex(fields)
-		o.Emit(obs, fields...)
+		res := make(chan string, 1)
+		go func() { res <- ex(fields) }()
+		select {
+		case obs := <-res:
+			o.Emit(obs, fields...)
+		case <-time.After(60 * time.Second):
+			buf := make([]byte, 1<<16)
+			n := runtime.Stack(buf, true)
+			dump := c.out + "/" + c.name + ".hang-goroutines.txt"
+			os.WriteFile(dump, buf[:n], 0o644)
+			o.Count("HANG")
+			o.Emit("HANG operation did not return within 60s (goroutine dump: "+dump+")", fields...)
+			o.Close(nil)
+			os.Exit(0)
+		}
 	}
 	if c.replay != "" {
 		fh, err := os.Open(c.replay)
